@@ -15,38 +15,195 @@ ENGINE = "spec"
 TECHNIQUE = "runtime monitor: differential against an independent reference codec (encode, decode, out-of-range)"
 LEVEL_TEXT = ("Every generated value is serialized by the real codec and by an independently written reference codec of Cassandra's "
               "serializers; bytes must be identical, reference-encoded images must decode to the same value, out-of-range inputs must "
-              "raise. Tens of thousands (quick) to ~1M (thorough) cases over nested types and all protocol versions.")
+              "raise (a pool of every ranged type's out-of-range classes and last in-range values, bare and inside every container kind). "
+              "Tens of thousands (quick) to ~1M (thorough) cases over nested types and all protocol versions, plus collections / fields / "
+              "vector elements whose count or byte size sits on a length-field boundary.")
 LEVEL_NOTE = ("Trusted base: spec/cqlcodec.py (self-checked against hand-verified vectors on every run). Excluded (stated assumptions): "
               "vectors whose element type's fixed-length classification in Cassandra could not be established offline (tinyint, smallint, "
-              "date, time, inet, duration), mixed-sign durations, top-level nulls in v1/v2 collections, vectors below protocol v3.")
+              "date, time, inet, duration), mixed-sign durations, top-level nulls in v1/v2 collections, vectors below protocol v3. "
+              "Two generated input classes are observed but not judged, with the reason recorded (NOT_JUDGED in this module).")
 WORKERS = 14
 
 PVS = [1, 2, 3, 4, 5, 6, 0x41, 0x42]
 
 
+class _Unrepresentable(object):
+    """Canonical stand-in for an input that denotes no value of the type at all (no byte string decodes to it)."""
+    def __init__(self, what):
+        self.what = what
+
+    def __repr__(self):
+        return "<no %s value: %s>" % self.what
+
+
+# Inputs the out-of-range monitor generates and observes but does not judge, with the reason (each is counted as
+# "not_judged[<slug>]" and recorded with ctx.assume).  Everything else that is encoded as something other than the intended value is a
+# violation (two of them are listed as known findings in known_findings.d/C02.json).
+NOT_JUDGED = {
+    "duration-months-days-beyond-int32-encoded":
+        "Duration months/days outside int32 (but inside int64) are written as vints that denote exactly the number given - not 'a different "
+        "value', which is what the property's range clause forbids; Cassandra rejects such bytes with an error of its own "
+        "('The duration months must be a 32 bits integer'), so nothing is stored wrongly",
+    "uuid-duck-typed-bytes-wrong-length-encoded":
+        "an object that merely has a .bytes attribute of the wrong length is not a value of any CQL type (no uuid.UUID can be built with it), so "
+        "there is no intended value to compare with",
+}
+UNDECIDED = NOT_JUDGED
+
+
 def out_of_range_pool(rng):
-    """(type, driver input, description) that are outside the type's range."""
+    """[(class, type, driver input or thunk building it, intended canonical value, mechanism override or None)].
+
+    Every entry denotes a value OUTSIDE the type's range (no byte string of the type decodes to the intended value), except the
+    class 'extreme-in-range' controls, which sit exactly on the last representable value and must be encoded as that value."""
     from cassandra import util
-    big = rng.choice([1, 2, 1000, 2 ** 40])
-    cases = [
-        (('int',), 2 ** 31 - 1 + big), (('int',), -2 ** 31 - big),
-        (('smallint',), 2 ** 15 - 1 + big), (('smallint',), -2 ** 15 - big),
-        (('tinyint',), 2 ** 7 - 1 + big), (('tinyint',), -2 ** 7 - big),
-        (('bigint',), 2 ** 63 - 1 + big), (('bigint',), -2 ** 63 - big),
-        (('counter',), 2 ** 63 - 1 + big),
-        (('float',), 3.5e38 * big), (('float',), -1e39),
-        (('date',), util.Date(2 ** 31 - 1 + big)), (('date',), util.Date(-2 ** 31 - big)),
-        (('timestamp',), 2 ** 63 - 1 + big), (('timestamp',), -2 ** 63 - big),
-        (('decimal',), decimal.Decimal('NaN')), (('decimal',), decimal.Decimal('Infinity')),
-        (('ascii',), 'caf\xe9'), (('ascii',), '€'),
-        (('list', ('int',)), [1, 2 ** 31]), (('set', ('smallint',)), [2 ** 15]),
-        (('map', ('int',), ('tinyint',)), {1: 128}), (('map', ('tinyint',), ('int',)), {-129: 1}),
-        (('tuple', ('int',), ('bigint',)), (1, 2 ** 63)),
-        (('vector', ('int',), 2), [1, 2 ** 31]),
-        (('tuple', ('int',)), (1, 2)),
-        (('vector', ('int',), 3), [1, 2]),
-    ]
+    D = util.Duration
+    U = _Unrepresentable
+    big = rng.choice([1, 2, 3, 255, 1000, 2 ** 31, 2 ** 40, 2 ** 62])
+    cases = []
+
+    def add(cls, t, dv, v=None, mech=None):
+        cases.append((cls, t, dv, dv if v is None else v, mech))
+
+    # fixed-width integers: just outside, far outside, and exact multiples of 2**bits (what a wrap-around maps to 0 / small values)
+    for k, bits in (('tinyint', 8), ('smallint', 16), ('int', 32), ('bigint', 64), ('counter', 64)):
+        lo, hi = -(1 << (bits - 1)), (1 << (bits - 1)) - 1
+        for x in (hi + 1, lo - 1, hi + big, lo - big, 1 << bits, (1 << bits) + rng.randint(0, 100), -(1 << bits), (1 << 64) + rng.randint(0, 100),
+                  -(1 << 64) - rng.randint(0, 100), (1 << bits) - 1, rng.choice([1, -1]) * (1 << rng.randint(bits, 130))):
+            add('int-width', (k,), x)
+        add('extreme-in-range', (k,), hi)
+        add('extreme-in-range', (k,), lo)
+    # floating point: finite values beyond the largest float32 / float64
+    for x in (3.5e38 * rng.choice([1, 2, 1000]), -3.5e38, 1e39, -1e39, 1.7e308, 10 ** 40, -10 ** 39, 10 ** 400):
+        add('float-overflow', ('float',), x, U(('float', repr(x)[:30])))
+    for x in (10 ** 400, -10 ** 309, 1 << 1024):
+        add('float-overflow', ('double',), x, U(('double', repr(x)[:30])))
+    for k in ('float', 'double'):
+        for x in (decimal.Decimal('1E+400'), decimal.Decimal('-1E+309')):
+            add('float-overflow', (k,), x, U((k, repr(x))), "decimal-input-beyond-double-range-encoded-as-infinity")
+    add('extreme-in-range', ('float',), 3.4028234663852886e38)
+    add('extreme-in-range', ('double',), -1.7976931348623157e308)
+    # date: day count outside [-2**31, 2**31); a bare int is documented to be the wire (2**31-offset) form
+    for d in (2 ** 31, -2 ** 31 - 1, 2 ** 31 - 1 + big, -2 ** 31 - big, 2 ** 32, 2 ** 32 + rng.randint(0, 99), -2 ** 32, 2 ** 64 + 5):
+        add('date-range', ('date',), (lambda d=d: util.Date(d)), d)
+    for raw in (-1, -big, 2 ** 32, 2 ** 32 + big, 2 ** 64):
+        add('date-range', ('date',), raw, raw - 2 ** 31)
+    add('extreme-in-range', ('date',), (lambda: util.Date(2 ** 31 - 1)), 2 ** 31 - 1)
+    add('extreme-in-range', ('date',), (lambda: util.Date(-2 ** 31)), -2 ** 31)
+    add('extreme-in-range', ('date',), 0, -2 ** 31)
+    add('extreme-in-range', ('date',), 2 ** 32 - 1, 2 ** 31 - 1)
+    # time: nanoseconds outside [0, 86400e9)
+    day = 86400 * 10 ** 9
+    for n in (-1, -big, day, day + big, 2 ** 63, 2 ** 63 - 1, 2 ** 64 + rng.randint(0, 99), -2 ** 63 - 1):
+        add('time-range', ('time',), n)
+        add('time-range', ('time',), (lambda n=n: util.Time(n)), n)
+    add('extreme-in-range', ('time',), day - 1)
+    add('extreme-in-range', ('time',), 0)
+    # timestamp: milliseconds outside int64 (numbers are accepted as timestamps)
+    for ms in (2 ** 63, -2 ** 63 - 1, 2 ** 63 - 1 + big, -2 ** 63 - big, 2 ** 64, 2 ** 64 + rng.randint(0, 99), -2 ** 64):
+        add('timestamp-range', ('timestamp',), ms)
+    for x in (1e19, -1e19, 1e300, float('inf'), float('-inf'), float('nan')):
+        add('timestamp-range', ('timestamp',), x, U(('timestamp', repr(x))))
+    add('extreme-in-range', ('timestamp',), 2 ** 63 - 1)
+    add('extreme-in-range', ('timestamp',), -2 ** 63)
+    # duration: months/days are int32, nanoseconds int64
+    beyond64 = [2 ** 63, -2 ** 63 - 1, 2 ** 63 + big, -2 ** 63 - big, 2 ** 64, 2 ** 64 + rng.randint(0, 99), -2 ** 64, -2 ** 64 - rng.randint(1, 99),
+                rng.choice([1, -1]) * (1 << rng.randint(64, 130))]
+    for x in beyond64:
+        s = 1 if x > 0 else -1
+        for pos in range(3):
+            comp = [s * rng.choice([0, 0, 1, 12]), s * rng.choice([0, 0, 1, 30]), s * rng.choice([0, 0, 1, 10 ** 9])]
+            comp[pos] = x
+            add('duration-beyond-int64', ('duration',), D(*comp), tuple(comp))
+    for x in (2 ** 31, -2 ** 31 - 1, 2 ** 31 - 1 + big, -2 ** 31 - big, 2 ** 32, -2 ** 32, 2 ** 63 - 1, -2 ** 63):
+        s = 1 if x > 0 else -1
+        for pos in range(2):
+            comp = [0, 0, s * rng.choice([0, 1, 10 ** 9])]
+            comp[pos] = x
+            add('duration-beyond-int32', ('duration',), D(*comp), tuple(comp), "duration-months-days-beyond-int32-encoded")
+    add('extreme-in-range', ('duration',), D(2 ** 31 - 1, 2 ** 31 - 1, 2 ** 63 - 1), (2 ** 31 - 1, 2 ** 31 - 1, 2 ** 63 - 1))
+    add('extreme-in-range', ('duration',), D(-2 ** 31, -2 ** 31, -2 ** 63), (-2 ** 31, -2 ** 31, -2 ** 63))
+    # decimal: non-finite, scale outside int32
+    for x in ('NaN', 'sNaN', '-NaN', 'Infinity', '-Infinity'):
+        add('decimal-range', ('decimal',), decimal.Decimal(x), U(('decimal', x)))
+    for e in (-2 ** 31 - 1, 2 ** 31 + 1, -2 ** 31 - min(big, 2 ** 40), 2 ** 31 + min(big, 2 ** 40), 2 ** 32, -2 ** 32, -2 ** 32 - 3):
+        add('decimal-range', ('decimal',), decimal.Decimal((rng.randint(0, 1), (1, 2, 5), e)))
+    add('extreme-in-range', ('decimal',), decimal.Decimal((0, (1, 2), 2 ** 31)))          # scale -2**31
+    add('extreme-in-range', ('decimal',), decimal.Decimal((1, (7,), -2 ** 31 + 1)))       # scale 2**31-1
+    # text kinds
+    for x in ('caf\xe9', '\u20ac', '\x80', 'a\xffb', '\U0001F600'):
+        add('ascii-range', ('ascii',), x, U(('ascii', ascii(x))))
+    for x in ('\ud800', 'a\udfffb', '\udc80'):
+        add('text-surrogate', (rng.choice(['text', 'varchar']),), x, U(('text', ascii(x))))
+    # inet: not an address / wrong length
+    for x in ('256.1.1.1', '1.2.3.4.5', '1.2.3.-4', '1::2::3', '12345::1', '1:2:3:4:5:6:7:8:9', 'g::1', '', '1.2.3.4/24', b'\x01\x02\x03',
+              b'\x01\x02\x03\x04\x05', bytes(15), bytes(17)):
+        add('inet-invalid', ('inet',), x, U(('inet', repr(x)[:40])))
+    # uuid / timeuuid: not 16 bytes
+    for k in ('uuid', 'timeuuid'):
+        for x in ('12345678123456781234567812345678', '12345678-1234-5678-1234-56781234567', b'\x00' * 15, b'\x00' * 17, 1 << 128):
+            add('uuid-invalid', (k,), x, U((k, repr(x)[:40])))
+        for nb in (15, 17, 3, 0):
+            add('uuid-invalid', (k,), G_AttrObj(bytes=b'\x07' * nb), U((k, 'object with %d-byte .bytes' % nb)), "uuid-duck-typed-bytes-wrong-length-encoded")
+    # shapes: tuple / UDT with too many items, vector dimension mismatch, null vector element
+    I, T = ('int',), ('text',)
+    udt = ('udt', 'ks1', 'oor_u', (('a', I), ('b', T)))
+    add('shape', ('tuple', I), (1, 2), U(('tuple<int>', '2 items')))
+    add('shape', ('tuple', I, T), (1, 'a', 3), U(('tuple<int, text>', '3 items')))
+    add('shape', udt, (1, 'a', 3), U(('oor_u', '3 items')), "udt-extra-fields-silently-dropped")
+    for et, vals in ((I, [1, 2, 3, 4]), (T, ['a', 'b', 'c', 'd']), (('bigint',), [1, 2, 3, 4]), (('varint',), [1, 2, 3, 4])):
+        dim = rng.randint(1, 3)
+        for n in sorted({0, dim - 1, dim + 1, 4} - {dim}):
+            add('vector-dimension', ('vector', et, dim), vals[:n], U(('vector<%s, %d>' % (et[0], dim), '%d elements' % n)))
+        add('vector-dimension', ('vector', et, 2), [vals[0], None], U(('vector<%s, 2>' % et[0], 'null element')))
     return cases
+
+
+def wrap_oor(rng, t, dv, v, pv):
+    """The same out-of-range leaf inside a container (list / set / map key / map value / tuple / UDT / vector)."""
+    from cassandra import util
+    w = rng.choice(['list', 'set', 'mapkey', 'mapval', 'tuple', 'udt'] + (['vector'] if pv >= 3 else []))
+    ft = ('frozen', t) if t[0] in ('list', 'set', 'map') else t
+    if w == 'list':
+        return ('list', ft), [dv], [v]
+    if w == 'set':
+        return ('set', ft), [dv], [v]
+    if w == 'mapkey':
+        try:
+            m = {dv: 1}
+        except TypeError:
+            m = util.OrderedMap([(dv, 1)])
+        return ('map', ft, ('int',)), m, [(v, 1)]
+    if w == 'mapval':
+        return ('map', ('int',), ft), {1: dv}, [(1, v)]
+    if w == 'tuple':
+        return ('tuple', ('int',), t), (1, dv), (1, v)
+    if w == 'udt':
+        return ('udt', 'ks1', 'oor_wrap', (('a', t), ('b', ('int',)))), (dv, 2), (v, 2)
+    return ('vector', t, 2), [dv, dv], [v, v]
+
+
+# classes of out_of_range_pool -> least number of evaluations per run (bare and nested each)
+OOR_CLASS_FLOORS = {'int-width': 500, 'float-overflow': 100, 'date-range': 100, 'time-range': 80, 'timestamp-range': 100,
+                    'duration-beyond-int64': 200, 'duration-beyond-int32': 100, 'decimal-range': 100, 'ascii-range': 50,
+                    'text-surrogate': 30, 'inet-invalid': 100, 'uuid-invalid': 100, 'shape': 30, 'vector-dimension': 100}
+
+
+def _short(x):
+    r = repr(x)
+    return r if len(r) <= 160 else r[:120] + "...(%d chars)" % len(r)
+
+
+def _len(x):
+    try:
+        return len(x)
+    except TypeError:
+        return None
+
+
+def G_AttrObj(**kw):
+    from props import _cqlgen as G
+    return G.AttrObj(**kw)
 
 
 def run(ctx):
@@ -56,10 +213,100 @@ def run(ctx):
     rng = ctx.rng
     G.ORDERED_SETS = True
     ctx.rule = ("C01 generator restricted to types the reference defines with certainty; case = (type, value, version); three monitors per "
-                "case: driver bytes == reference bytes, driver decode of reference bytes == value; plus out-of-range pool must raise. "
+                "case: driver bytes == reference bytes, driver decode of reference bytes == value; the same two monitors on length-field "
+                "boundary collections (count / element size 127..65536) per protocol version; plus an out-of-range pool (per ranged type: "
+                "just outside, far outside, wrap-around multiples, invalid lengths/shapes; bare and nested in list/set/map/tuple/UDT/vector; "
+                "all versions) that must raise or encode the intended value, and last-in-range controls that must encode exactly. "
                 "distinct by canonical repr; non-trivial = nested type or boundary scalar (varint/decimal/duration/date/time/timestamp)")
     n_self = S.selfcheck()
     ctx.count("spec_selfcheck_cases", n_self)
+    def differential(t, v, pv, via_desc, nested, sample_p=0.01, flat=False, ref=None):
+        """Monitors (1) and (2) for one (type, canonical value, version); True when both held."""
+        try:
+            ref = S.enc(t, v, pv) if ref is None else ref
+        except S.Undefined:
+            ctx.count("skipped_undefined")
+            return None
+        if flat:
+            # tens of thousands of int/bool elements: same two monitors, compared without the per-element normaliser; anything but
+            # an exact match falls through to the general path below, which classifies it and builds the witness
+            try:
+                dt = G.driver_type(t, via_descriptor=via_desc)
+                if bytes(dt.serialize(G.flat_input(rng, t, v, ordered=True), pv)) == ref and G.flat_equal(t, v, dt.deserialize(ref, pv)):
+                    ctx.count("bytes_compared", len(ref))
+                    ctx.count("encodings_equal")
+                    ctx.count("decodings_equal")
+                    return True
+            except Exception:
+                pass
+        back0 = S.dec(t, ref, pv)
+        if G.canon_key(t, back0) != G.canon_key(t, v):
+            from vlib.run import Inconclusive
+            raise Inconclusive("reference codec does not round-trip %s %r" % (S.cql_name(t), repr(v)[:200]))
+        dt = G.driver_type(t, via_descriptor=via_desc)
+        dv = G.to_driver(rng, t, v)
+        wit = {"type": S.cql_name(t), "pv": pv, "value": repr(v)[:400], "input": repr(dv)[:300], "reference_bytes": ref}
+        # (1) encode: byte equality
+        try:
+            got = dt.serialize(dv, pv)
+        except Exception as e:
+            ctx.violation("serialize-raises", "serialize of %s v%d raised %s: %s" % (S.cql_name(t), pv, type(e).__name__, str(e)[:200]), wit)
+            return False
+        ctx.count("bytes_compared", len(ref))
+        if bytes(got) != ref:
+            wit["driver_bytes"] = bytes(got)
+            ctx.violation("encoding-differs-from-reference", "%s v%d: driver wrote %s, Cassandra's serializer writes %s" % (
+                S.cql_name(t), pv, bytes(got).hex()[:120], ref.hex()[:120]), wit)
+            return False
+        ctx.count("encodings_equal")
+        # (2) decode of the Cassandra image
+        try:
+            res = dt.deserialize(ref, pv)
+            back = G.from_driver(t, res)
+        except G.MapItemsKeyError as e:
+            if e.reencoding_differs and G.contains_kind(e.key_type, ('set', 'tuple', 'udt')):
+                ctx.count("map_key_reencoding_keyerror_seen(C01 known finding)")
+                return None
+            ctx.violation("deserialize-raises", "deserialize of reference bytes for %s v%d raised %s" % (S.cql_name(t), pv, e), wit)
+            return False
+        except Exception as e:
+            ctx.violation("deserialize-raises", "deserialize of reference bytes for %s v%d raised %s: %s" % (
+                S.cql_name(t), pv, type(e).__name__, str(e)[:200]), wit)
+            return False
+        if G.canon_key(t, back) != G.canon_key(t, v):
+            wit["decoded"] = repr(back)[:400]
+            wit["len_value"], wit["len_decoded"] = _len(v), _len(back)
+            ctx.violation("decoding-differs-from-reference", "%s v%d: bytes %s decode to %s, Cassandra means %s%s" % (
+                S.cql_name(t), pv, ref.hex()[:100], _short(back), _short(v),
+                "" if _len(v) == _len(back) else " [%s elements in the image, %s decoded]" % (_len(v), _len(back))), wit)
+            return False
+        ctx.count("decodings_equal")
+        if nested and len(ctx.samples) < 6 and rng.random() < sample_p:
+            ctx.sample({"type": S.cql_name(t), "pv": pv, "value": repr(v)[:200], "bytes": ref})
+        return True
+
+    # (0) length-field boundaries on every protocol version: collections / tuple+UDT fields / vectors whose element count or element
+    # byte size is 127/128, 255/256, 32767/32768, 65535 (65536 for v3+).  Run first so a time-budget stop cannot skip them.
+    def boundary(cls, label, bound, t, v, pv, flat=False):
+        if S.contains_uncertain_vector(t):
+            return
+        ctx.case(repr(("boundary", label, pv)), nontrivial=True)
+        ctx.count("boundary_%s_cases" % cls)
+        if pv < 3 and bound >= 32768 and cls in ('count', 'elemsize'):
+            ctx.count("boundary_v1v2_%s_ge_32768" % cls)
+        if differential(t, v, pv, rng.random() < 0.3, True, sample_p=0.0, flat=flat):
+            ctx.count("boundary_cases_equal")
+
+    for pv in PVS:
+        for cls, label, bound, t, v in G.boundary_cases(rng, pv, big_counts=0):
+            boundary(cls, label, bound, t, v, pv)
+    # counts on the [short] / beyond: per run one case >= 32768 on v1 and on v2, one on a v3+ version (the element-wise reference
+    # codec makes these the expensive cases; C01 runs every kind on every run)
+    for pv, counts in ((1, (32768, 65535)), (2, (32768, 65535)), (rng.choice(PVS[2:]), (32767, 32768, 65535, 65536))):
+        kind, n = rng.choice(['list', 'set', 'map']), rng.choice(counts)
+        t, v = G.count_case(rng, kind, n)
+        boundary('count', '%s count=%d' % (S.cql_name(t), n), n, t, v, pv, flat=True)
+
     n = ctx.scale(60000, 1200000)
     budget = 45 if ctx.quick else 420
     interesting_scalars = ('varint', 'decimal', 'duration', 'date', 'time', 'timestamp', 'inet', 'float', 'double')
@@ -81,84 +328,106 @@ def run(ctx):
         nested = G.is_nested(t)
         ctx.case(repr((S.cql_name(t), G.canon_key(t, v), pv)), nontrivial=nested or t[0] in interesting_scalars)
         ctx.count("nested_cases" if nested else "scalar_cases")
-        back0 = S.dec(t, ref, pv)
-        if G.canon_key(t, back0) != G.canon_key(t, v):
-            from vlib.run import Inconclusive
-            raise Inconclusive("reference codec does not round-trip %s %r" % (S.cql_name(t), v))
-        dt = G.driver_type(t, via_descriptor=rng.random() < 0.3)
-        dv = G.to_driver(rng, t, v)
-        wit = {"type": S.cql_name(t), "pv": pv, "value": repr(v)[:400], "input": repr(dv)[:300], "reference_bytes": ref}
-        # (1) encode: byte equality
-        try:
-            got = dt.serialize(dv, pv)
-        except Exception as e:
-            ctx.violation("serialize-raises", "serialize of %s v%d raised %s: %s" % (S.cql_name(t), pv, type(e).__name__, str(e)[:200]), wit)
-            continue
-        ctx.count("bytes_compared", len(ref))
-        if bytes(got) != ref:
-            wit["driver_bytes"] = bytes(got)
-            ctx.violation("encoding-differs-from-reference", "%s v%d: driver wrote %s, Cassandra's serializer writes %s" % (
-                S.cql_name(t), pv, bytes(got).hex()[:120], ref.hex()[:120]), wit)
-            continue
-        ctx.count("encodings_equal")
-        # (2) decode of the Cassandra image
-        try:
-            res = dt.deserialize(ref, pv)
-            back = G.from_driver(t, res)
-        except G.MapItemsKeyError as e:
-            if e.reencoding_differs and G.contains_kind(e.key_type, ('set', 'tuple', 'udt')):
-                ctx.count("map_key_reencoding_keyerror_seen(C01 known finding)")
-                continue
-            ctx.violation("deserialize-raises", "deserialize of reference bytes for %s v%d raised %s" % (S.cql_name(t), pv, e), wit)
-            continue
-        except Exception as e:
-            ctx.violation("deserialize-raises", "deserialize of reference bytes for %s v%d raised %s: %s" % (
-                S.cql_name(t), pv, type(e).__name__, str(e)[:200]), wit)
-            continue
-        if G.canon_key(t, back) != G.canon_key(t, v):
-            wit["decoded"] = repr(back)[:400]
-            ctx.violation("decoding-differs-from-reference", "%s v%d: bytes %s decode to %r, Cassandra means %r" % (
-                S.cql_name(t), pv, ref.hex()[:100], back, v), wit)
-            continue
-        ctx.count("decodings_equal")
-        if nested and len(ctx.samples) < 6 and rng.random() < 0.01:
-            ctx.sample({"type": S.cql_name(t), "pv": pv, "value": repr(v)[:200], "bytes": ref})
+        differential(t, v, pv, rng.random() < 0.3, nested, ref=ref)
 
-    # (3) out of range
-    for rep in range(ctx.scale(40, 400)):
-        for t, dv in out_of_range_pool(rng):
-            pv = rng.choice([3, 4, 5])
-            dt = G.driver_type(t)
-            ctx.case(repr(("oor", S.cql_name(t), repr(dv))), nontrivial=True)
-            try:
-                got = dt.serialize(dv, pv)
-            except Exception:
-                ctx.count("out_of_range_rejected")
-                continue
-            # accepted: the bytes must denote the same value
-            try:
-                back = G.from_driver(t, dt.deserialize(got, pv))
-                spec_back = S.dec(t, bytes(got), pv)
-                same = (repr(back) == repr(G.from_driver(t, dv)) and G.canon_key(t, spec_back) == G.canon_key(t, back))
-            except Exception:
-                same = False
-            if not same:
-                ctx.violation("out-of-range-value-encoded", "%s: out-of-range %r was encoded as %s instead of raising" % (
-                    S.cql_name(t), dv, bytes(got).hex()[:80]), {"type": S.cql_name(t), "input": repr(dv), "bytes": bytes(got)})
+    # (3) out of range: every class of the pool bare and inside a container, on every protocol version.  Oracle: the driver raises,
+    # or the bytes it wrote are read by the reference decoder (strict: every byte consumed, every component inside its wire range)
+    # as exactly the intended value.
+    def judge(cls, t, dv, v, pv, mech_override):
+        ctx.case(repr(("oor", cls, S.cql_name(t), repr(v)[:200], pv)), nontrivial=True)
+        ctx.count("oor[%s]" % cls)
+        control = cls == 'extreme-in-range'
+        try:
+            if callable(dv):
+                dv = dv()
+            got = bytes(G.driver_type(t).serialize(dv, pv))
+        except Exception as e:
+            if control:
+                ctx.violation("in-range-extreme-rejected", "%s v%d: %r is the last value inside the range but serialize raised %s: %s" % (
+                    S.cql_name(t), pv, v, type(e).__name__, str(e)[:120]), {"type": S.cql_name(t), "pv": pv, "value": repr(v)})
             else:
-                ctx.count("out_of_range_encoded_same_value")
-    # v2 width limits
-    from cassandra import cqltypes as C
+                ctx.count("out_of_range_rejected")
+            return
+        same = False
+        try:
+            spec_back = S.dec(t, got, pv)
+            denotes = repr(spec_back)[:160]
+        except Exception as e:
+            denotes = "no value of the type (%s: %s)" % (type(e).__name__, str(e)[:80])
+        else:
+            try:
+                same = G.canon_key(t, spec_back) == G.canon_key(t, v)
+            except Exception:
+                same = False        # the intended value is not a value of the type at all
+            if same:
+                # ... and it must be a value Cassandra's serializer can produce (the decoder reads any 8 bytes as a time)
+                try:
+                    S.enc(t, spec_back, pv)
+                except S.SpecError as e:
+                    same = False
+                    denotes += " (outside the serializer's range: %s)" % e
+                except S.Undefined:
+                    pass
+        if same:
+            ctx.count("extreme_in_range_encoded_exactly" if control else "out_of_range_encoded_same_value")
+            return
+        mech = mech_override or ("in-range-extreme-encoded-as-other-value" if control else "out-of-range-value-encoded")
+        what = "%s v%d: %s %r was encoded as %s, which denotes %s, instead of raising" % (
+            S.cql_name(t), pv, "in-range" if control else "out-of-range", v, got.hex()[:80], denotes)
+        if mech in UNDECIDED:
+            ctx.count("not_judged[%s]" % mech)
+            if mech not in undecided_seen:
+                undecided_seen.add(mech)
+                ctx.assume("not judged: %s - %s" % (mech, UNDECIDED[mech]))
+            return
+        ctx.violation(mech, what, {"class": cls, "type": S.cql_name(t), "pv": pv, "input": repr(dv)[:300], "intended": repr(v)[:300],
+                                   "bytes": got, "bytes_denote": denotes})
+
+    undecided_seen = set()
+    for rep in range(ctx.scale(12, 168)):
+        for cls, t, dv, v, mech in out_of_range_pool(rng):
+            pv = rng.choice(PVS)
+            judge(cls, t, dv, v, pv, mech)
+            pv = rng.choice(PVS)
+            if callable(dv):
+                try:
+                    dv = dv()
+                except Exception:
+                    continue          # the driver's own value class refuses the number (counted above as rejected)
+            for _ in range(4):
+                wt, wdv, wv = wrap_oor(rng, t, dv, v, pv)
+                if rng.random() < 0.25:
+                    wt, wdv, wv = wrap_oor(rng, wt, wdv, wv, pv)
+                if not (cls == 'extreme-in-range' and S.contains_uncertain_vector(wt)):
+                    break
+            else:
+                continue
+            judge(cls if cls == 'extreme-in-range' else cls + ' nested', wt, wdv, wv, pv, mech)
+    # v1/v2 width limits: a count or an element beyond the [short]
     for pv in (1, 2):
-        for t, dv in [(('list', ('int',)), list(range(65536))), (('list', ('blob',)), [b'x' * 65536]),
-                      (('map', ('int',), ('blob',)), {1: b'y' * 70000})]:
+        big_blob = b'x' * rng.choice([65536, 65537, 70000, 131072])
+        nbig = rng.choice([65536, 65537, 70000])
+        for t, dv in [(('list', ('int',)), list(range(nbig))), (('set', ('int',)), list(range(nbig))),
+                      (('map', ('int',), ('tinyint',)), dict.fromkeys(range(nbig), 1)),
+                      (('list', ('blob',)), [b'a', big_blob]), (('set', ('text',)), ['a', 'y' * len(big_blob)]),
+                      (('map', ('blob',), ('int',)), {b'k': 1, big_blob: 2}), (('map', ('int',), ('blob',)), {1: b'v', 2: big_blob})]:
             ctx.case(repr(("oor-v2", S.cql_name(t), pv)), nontrivial=True)
+            ctx.count("oor[v1v2-short-overflow]")
             try:
                 got = G.driver_type(t).serialize(dv, pv)
             except Exception:
                 ctx.count("out_of_range_rejected")
                 continue
             ctx.violation("v2-collection-width-overflow-encoded", "%s at v%d with an element/count beyond 65535 was encoded" % (S.cql_name(t), pv),
-                          {"type": S.cql_name(t), "pv": pv})
+                          {"type": S.cql_name(t), "pv": pv, "bytes": bytes(got)[:64]})
     ctx.floor_distinct = 5000 if ctx.quick else 100000
-    ctx.floor_counters = {"encodings_equal": 5000, "decodings_equal": 5000, "out_of_range_rejected": 100, "nested_cases": 3000}
+    ctx.floor_counters = {"encodings_equal": 5000, "decodings_equal": 5000, "out_of_range_rejected": 2000, "nested_cases": 3000,
+                          # every out-of-range class, bare and nested (12 pool passes per quick process)
+                          "extreme_in_range_encoded_exactly": 300, "oor[v1v2-short-overflow]": 14,
+                          # length-field boundaries
+                          "boundary_count_cases": 90, "boundary_elemsize_cases": 220, "boundary_field_cases": 60,
+                          "boundary_vector_cases": 60, "boundary_v1v2_count_ge_32768": 2, "boundary_v1v2_elemsize_ge_32768": 16,
+                          "boundary_cases_equal": 420}
+    for cls, lo in OOR_CLASS_FLOORS.items():
+        ctx.floor_counters["oor[%s]" % cls] = lo
+        ctx.floor_counters["oor[%s nested]" % cls] = lo
